@@ -75,7 +75,7 @@ struct Ledger {
     /// C19: id-nonces of WHOAREYOU packets emitted by real nodes
     id_nonces: HashSet<[u8; 16]>,
     /// C02: plaintexts really sealed by a real node or handed to craft_* by the script: (key, plaintext)
-    sealed: HashSet<([u8; 16], Vec<u8>)>,
+    sealed: HashMap<([u8; 16], Vec<u8>), u64>, // -> who sealed it (node index; ATTACKER for crafted)
     /// C03: cd names consumed by an accepted handshake at a node
     consumed_cd: HashSet<(u64, u64)>,
     /// C03: challenges a node issued and that were not yet consumed: (node, cd name) -> issue time
@@ -519,8 +519,10 @@ impl HandlerRunner {
                         if l.failures > 0 {
                             out.push(format!("!MON C04 response-after-failure node={} rid={}", idx, rid));
                         }
+                        // the final response: a single-packet answer, or the `total`-th packet of a
+                        // multi-packet NODES answer (the handler counts packets)
                         let last = match &resp.body {
-                            ResponseBody::Nodes { total, .. } => *total <= 1,
+                            ResponseBody::Nodes { total, .. } => *total <= 1 || l.responses as u64 >= *total,
                             _ => true,
                         };
                         if last {
@@ -646,7 +648,7 @@ impl HandlerRunner {
                                 self.ledger.internal.entry((from, rn)).or_insert((self.now_ms, dst_idx, false));
                             }
                         }
-                        self.ledger.sealed.insert((k, pt));
+                        self.ledger.sealed.entry((k, pt)).or_insert(from);
                         // C15: a packet made after an idle period longer than the session timeout
                         // must not be sealed under a key from before that period
                         if let Some(pos) = self.keys.iter().position(|(kb, _)| *kb == k) {
@@ -708,8 +710,11 @@ impl HandlerRunner {
     /// C02: a delivered message must be byte-identical to one sealed for a session of that peer.
     fn mon_authentic(&mut self, at: u64, na: &NodeAddress, encoded: &[u8], out: &mut Vec<String>) {
         let c = self.id_idx(&na.node_id);
-        if !self.ledger.sealed.iter().any(|(_, pt)| pt == encoded) {
+        let sealers: Vec<u64> = self.ledger.sealed.iter().filter(|((_, pt), _)| pt == encoded).map(|(_, who)| *who).collect();
+        if sealers.is_empty() {
             out.push(format!("!MON C02 delivered-message-never-sealed node={} from={}", at, c));
+        } else if !sealers.contains(&c) {
+            out.push(format!("!MON C02 delivered-message-not-sealed-by-claimed-peer node={} claimed={} sealed-by={:?}", at, c, sealers));
         }
     }
 
@@ -1216,7 +1221,8 @@ impl HandlerRunner {
                 let nonce: [u8; 12] = r.bytes(12).try_into().unwrap();
                 let Some((bytes, keys, _eph)) = hf::craft_handshake(senr.node_id(), &skey, &denr, &aad, rec, nonce, &body) else { return false };
                 // the attacker knows the keys it derived; what it seals is recorded as sealed by it
-                self.ledger.sealed.insert((keys.initiator_key, body));
+                // whoever holds the signing key is the sealing party
+                self.ledger.sealed.entry((keys.initiator_key, body)).or_insert(get(1));
                 stats.bump("h.craft.handshake-built");
                 self.wire.push(Datagram { from_idx: ATTACKER, src: node_addr(ATTACKER), dst: node_addr(get(2)), dst_id: denr.node_id(), bytes });
                 true
